@@ -7,7 +7,10 @@
 //! decreases, and after `flag.load(Acquire) == k` (stored with Release after
 //! write k) a read returns at least T_k. `try_read` must succeed when no write
 //! can be concurrent. Part `public`: `Scheduler::time()` polled from other
-//! threads while a real simulation steps through events at such times.
+//! threads while a real simulation moves through events at such times with `step`
+//! and `step_until` (whose final write of the target is a separate path); the
+//! stepping thread publishes (Release) the time it reached after every call and
+//! a reader that acquired that flag must not read an older time.
 use std::sync::atomic::{AtomicBool, AtomicU64, Ordering};
 use std::sync::Arc;
 use std::time::Duration;
@@ -184,18 +187,28 @@ fn public_case(rep: &mut Report, opts: &Opts, case: u64) {
         sched.schedule_event(t_of(k), crate::bench::Node::on_event, m, &addr).unwrap();
     }
     let done = Arc::new(AtomicBool::new(false));
+    // k of the time the stepping thread saw after its latest stepping call, stored with
+    // Release: a reader that acquires it must never read an older time afterwards.
+    let published = Arc::new(AtomicU64::new(0));
     let mut hs = Vec::new();
     for ri in 0..(if cfg!(miri) { 1 } else { 3 }) {
         let sched = sched.clone();
         let done = done.clone();
+        let published = published.clone();
         hs.push(std::thread::spawn(move || {
             let mut last = 0u64;
             let mut n = 0u64;
             let mut distinct = 0u64;
             let mut v: Vec<(String, String)> = Vec::new();
             while !done.load(Ordering::Relaxed) && v.len() < 4 {
+                let p = published.load(Ordering::Acquire);
                 let t = sched.time();
                 n += 1;
+                if let Some(k) = k_of(t) {
+                    if k < p {
+                        v.push(("C15/scheduler-time-older-than-published".into(), format!("thread {} read T_{} after acquiring a flag stored after the stepping call that reached T_{}", ri, k, p)));
+                    }
+                }
                 match k_of(t) {
                     None => v.push(("C15/torn-read-through-scheduler".into(), format!("thread {} read secs={} nanos={} which the simulation never had", ri, t.as_secs(), t.subsec_nanos()))),
                     Some(k) => {
@@ -217,9 +230,24 @@ fn public_case(rep: &mut Report, opts: &Opts, case: u64) {
     }
     let simu = built.simu.as_mut().unwrap();
     let mut steps = 0;
+    let mut until_calls = 0u64;
     while to_ns(simu.time()) < to_ns(t_of(nev)) {
-        if simu.step().is_err() {
+        // A third of the stepping calls are step_until over 1-3 event times (its final
+        // write of the target time is a separate code path).
+        let r = if rng.below(3) == 0 {
+            let cur = k_of(simu.time()).unwrap_or(0);
+            let tgt = (cur + 1 + rng.below(3)).min(nev);
+            until_calls += 1;
+            simu.step_until(t_of(tgt))
+        } else {
+            simu.step()
+        };
+        if r.is_err() {
             break;
+        }
+        match k_of(simu.time()) {
+            Some(k) => published.store(k, Ordering::Release),
+            None => rep.violation("C15/torn-read-through-simulation".to_string(), format!("[public exec={}] Simulation::time() returned secs={} nanos={} which no event time or target has", exec.label, simu.time().as_secs(), simu.time().subsec_nanos()), replay.clone()),
         }
         steps += 1;
         if steps % 16 == 0 {
@@ -238,6 +266,7 @@ fn public_case(rep: &mut Report, opts: &Opts, case: u64) {
         }
     }
     rep.count("public_reads_that_saw_time_move", moving);
+    rep.count("public_step_until_calls", until_calls);
     if moving > 0 {
         rep.distinct.insert(h2(cs, 1));
     }
